@@ -790,6 +790,14 @@ where
         anda_db_utils::verif_point!("insert:max_bucket_id.load");
         let bucket_id = self.max_bucket_id.load(Ordering::Acquire);
         let tokens: usize = token_freqs.values().sum();
+        #[cfg(feature = "verif")]
+        let token_freqs = {
+            // Deterministic term order for schedule replay (std HashMap order is
+            // seeded per thread).
+            let mut sorted: Vec<(String, usize)> = token_freqs.into_iter().collect();
+            sorted.sort();
+            sorted
+        };
         // buckets_to_update: FxHashMap<bucketid, FxHashMap<token, size_increase>>
         let mut buckets_to_update: FxHashMap<u32, FxHashMap<String, usize>> = FxHashMap::default();
         anda_db_utils::verif_point!("insert:doc_tokens.entry");
@@ -992,6 +1000,14 @@ where
         let mut buckets_to_update: FxHashMap<u32, FxHashMap<String, usize>> = FxHashMap::default();
         // Remove from inverted index
         let mut maybe_empty_tokens: Vec<String> = Vec::new();
+        #[cfg(feature = "verif")]
+        let token_freqs = {
+            // Deterministic term order for schedule replay (std HashMap order is
+            // seeded per thread).
+            let mut sorted: Vec<(String, usize)> = token_freqs.into_iter().collect();
+            sorted.sort();
+            sorted
+        };
         for (token, _) in token_freqs {
             anda_db_utils::verif_point!("remove:postings.get_mut");
             if let Some(mut posting) = self.postings.get_mut(&token) {
@@ -1074,6 +1090,13 @@ where
             .filter(|bucket| bucket.doc_ids.contains(&id))
             .map(|bucket| *bucket.key())
             .collect();
+        #[cfg(feature = "verif")]
+        let stale_buckets = {
+            // Deterministic order for schedule replay (DashMap order is seeded).
+            let mut sorted = stale_buckets;
+            sorted.sort_unstable();
+            sorted
+        };
         for bucket_id in stale_buckets {
             anda_db_utils::verif_point!("remove:buckets.get_mut(stale)");
             if let Some(mut bucket) = self.buckets.get_mut(&bucket_id)
@@ -1210,6 +1233,9 @@ where
             };
             *bucket_size_decrease.entry(bucket_id).or_default() += size_decrease;
         }
+        // Deterministic order for schedule replay (DashMap order is seeded).
+        #[cfg(feature = "verif")]
+        emptied_tokens.sort();
 
         // Phase 3: drop the emptied posting lists atomically. A concurrent
         // insert may have appended an entry after the sweep released the shard
@@ -1271,6 +1297,13 @@ where
             .filter(|bucket| ids.iter().any(|id| bucket.doc_ids.contains(id)))
             .map(|bucket| *bucket.key())
             .collect();
+        #[cfg(feature = "verif")]
+        let stale_buckets = {
+            // Deterministic order for schedule replay (DashMap order is seeded).
+            let mut sorted = stale_buckets;
+            sorted.sort_unstable();
+            sorted
+        };
         purged_postings |= !stale_buckets.is_empty();
         for bucket_id in stale_buckets {
             anda_db_utils::verif_point!("purge_ids:buckets.get_mut(stale)");
@@ -1933,6 +1966,9 @@ where
         }
 
         // Step 2: Sort by size descending for better packing.
+        // Same input order in every run, so equal sizes bin the same way.
+        #[cfg(feature = "verif")]
+        token_sizes.sort();
         token_sizes.sort_unstable_by_key(|b| std::cmp::Reverse(b.1));
 
         // Step 3: Best-fit-decreasing bin packing in O(n log n).
